@@ -159,7 +159,7 @@ Leaves(p) ==
                 [] x = "Records"     -> [k |-> "y", v |-> p.f.records, z |-> FALSE, o |-> "ZipPack.Records"]])
 
 \* every leaf of the small world is carried by the reference writer
-MsgFor(p) == [type |-> p.type, code |-> CodeOf(p.type), mode |-> "reg", w |-> Leaves(p), wd |-> [x \in {} |-> 0],
+MsgFor(p) == [type |-> p.type, code |-> CodeOf(p.type), mode |-> "reg", w |-> Leaves(p), wd |-> [x \in {} |-> 0], wdel |-> {},
               sib |-> [x \in {} |-> 0], carried |-> DOMAIN Leaves(p), bytes |-> RefEnc(p), perm |-> FALSE]
 
 \* ---- the world ----
